@@ -1,7 +1,9 @@
 import SigpyVerif.Model.Py
 import SigpyVerif.Model.Apply
+import SigpyVerif.Model.C07Py
 import SigpyVerif.Gen.Interp
 import SigpyVerif.Gen.InterpKernels
+import SigpyVerif.Gen.InterpWrappers
 /-
   C07 model: `interp.interpolate` / `interp.gridding`.
 
@@ -9,8 +11,16 @@ import SigpyVerif.Gen.InterpKernels
     every run) — update lists `(dst, src, weight)` over `Rat` coordinates / widths / params and an
     abstract kernel `K : Rat → Rat → Rat`;
   * the spline kernel is `Gen.splineKernel` (regenerated from `_spline_kernel`);
-  * the Python wrappers (batch flattening, scalar vs per-axis `width` / `param` broadcasting, reshape of
-    the result) are written by hand below and tied to the code by the correspondence check;
+  * the Python wrappers are `Gen.interpolateW` / `Gen.griddingW` (regenerated from the bodies of
+    `interpolate` / `gridding` on every run, statement by statement: `ndim`, `batch_shape`, `batch_size`,
+    `pts_shape`, `npts`, the three reshapes, the `np.isscalar` broadcasting of `width` / `param`, the dispatch
+    `TABLE[kernel][ndim - 1]`, the argument order of the kernel call, the result reshape); the Python list
+    semantics they are written in is `Model/C07Py.lean`.  What is written by hand below is only: the domain guard
+    (`1 ≤ ndim ≤ 3`, `ndim ≤ rank`), the check that the recorded reshapes are legal, and the application of
+    the update list to the data (`applyC` → `applyUpd`, linked to the function-level semantics `runUpd`
+    by `applyUpd_eq_runUpd`, Lemmas/C07Apply.lean).  `Props/C07Wrap.lean` proves that the generated wrappers
+    compute `batch ++ pts`-shaped results from the D-dimensional loop nest on the flattened problem
+    with `width` / `param` broadcast (`wrapper_spec`, `gridding_wrapper_spec`).
   * the Kaiser–Bessel kernel involves sqrt/exp and has no `Rat` model: for it the driver emits the update
     list with the *kernel arguments* `u_d = (i_d - c_d)/(W_d/2)` instead of weights (`tagKernel`), and the
     harness multiplies the real `_kaiser_bessel_kernel` values — so windows, wrap, axis pairing and
@@ -18,15 +28,6 @@ import SigpyVerif.Gen.InterpKernels
 -/
 namespace SigpyVerif.C07
 open SigpyVerif
-
-/-- `width` / `param` argument: a Python scalar is replicated `ndim` times, a sequence is taken as is -/
-inductive Bc where
-  | scalar (v : Rat)
-  | perAxis (l : List Rat)
-
-def Bc.toList (ndim : Nat) : Bc → List Rat
-  | .scalar v => List.replicate ndim v
-  | .perAxis l => l
 
 /-- execution aid: with `param[-d] = d` this kernel returns the kernel argument on axis `k` and 1 on the
     other axes, so the product weight of an update is exactly `u_k`. -/
@@ -38,58 +39,6 @@ def tagParam (ndim : Nat) : List Rat := (List.range ndim).map fun (i : Nat) => (
 /-- transposition of one update -/
 def swapUpd {α} (u : Upd α) : Upd α := (u.2.1, u.1, u.2.2)
 
-/-- split a flat list into rows of length `n` -/
-def rows {α} (n : Nat) (l : List α) : List (List α) :=
-  if n = 0 then [] else
-    (List.range (l.length / n)).map fun r => (l.drop (r * n)).take n
-
-/-- the generated interpolation loop nest for `ndim` ∈ {1,2,3} on flattened arguments
-    (`output = zeros([batch, npts])`, `input.reshape([batch] + grid)`, `coord.reshape([npts, ndim])`). -/
-def interpEntries (K : Rat → Rat → Rat) (ndim : Nat) (batch : Int) (grid : List Int) (npts : Int)
-    (coord : List (List Rat)) (width param : List Rat) : Option (List (Upd Rat) × Bool) :=
-  let osh := shapeFn [batch, npts]
-  let ish := shapeFn (batch :: grid)
-  let csh := shapeFn [npts, (ndim : Int)]
-  match ndim with
-  | 1 => some (Gen.interp1 K osh ish csh (idx2 coord) (idx1 width) (idx1 param), Gen.interp1_accumulates)
-  | 2 => some (Gen.interp2 K osh ish csh (idx2 coord) (idx1 width) (idx1 param), Gen.interp2_accumulates)
-  | 3 => some (Gen.interp3 K osh ish csh (idx2 coord) (idx1 width) (idx1 param), Gen.interp3_accumulates)
-  | _ => none
-
-/-- the generated gridding loop nest (`output = zeros([batch] + grid)`, `input.reshape([batch, npts])`) -/
-def gridEntries (K : Rat → Rat → Rat) (ndim : Nat) (batch : Int) (grid : List Int) (npts : Int)
-    (coord : List (List Rat)) (width param : List Rat) : Option (List (Upd Rat) × Bool) :=
-  let ish := shapeFn [batch, npts]
-  let osh := shapeFn (batch :: grid)
-  let csh := shapeFn [npts, (ndim : Int)]
-  match ndim with
-  | 1 => some (Gen.grid1 K osh ish csh (idx2 coord) (idx1 width) (idx1 param), Gen.grid1_accumulates)
-  | 2 => some (Gen.grid2 K osh ish csh (idx2 coord) (idx1 width) (idx1 param), Gen.grid2_accumulates)
-  | 3 => some (Gen.grid3 K osh ish csh (idx2 coord) (idx1 width) (idx1 param), Gen.grid3_accumulates)
-  | _ => none
-
-/-- what the wrappers compute from the shapes: (ndim, batch shape, grid shape, pts shape) -/
-structure Geom where
-  ndim : Nat
-  batchShape : List Int
-  grid : List Int
-  ptsShape : List Int
-  batch : Int
-  npts : Int
-
-/-- `gshape` = full grid-side array shape (`input.shape` of interpolate, `shape` of gridding),
-    `cshape` = `coord.shape`. -/
-def geom (gshape cshape : List Int) : Option Geom :=
-  match cshape.getLast? with
-  | none => none
-  | some nd =>
-    if nd < 1 ∨ nd > 3 ∨ (gshape.length : Int) < nd then none else
-    let ndim := nd.toNat
-    let bs := gshape.take (gshape.length - ndim)
-    let ps := cshape.dropLast
-    some { ndim := ndim, batchShape := bs, grid := gshape.drop (gshape.length - ndim), ptsShape := ps,
-           batch := shapeProd bs, npts := shapeProd ps }
-
 /-- apply an update list to complex data (real weights: real and imaginary parts separately) -/
 def applyC (acc : Bool) (oshape ishape : List Int) (E : List (Upd Rat)) (x : Array (Rat × Rat)) :
     Option (Array (Rat × Rat)) := do
@@ -97,37 +46,51 @@ def applyC (acc : Bool) (oshape ishape : List Int) (E : List (Upd Rat)) (x : Arr
   let im ← applyUpd (· * ·) acc oshape ishape E (x.map (·.2))
   pure (re.zip im)
 
-/-- `interp.interpolate(input, coord, 'spline'-like kernel K, width, param)` on flat row-major data -/
+/-- the domain of the property: `coord.shape[-1] = ndim ∈ {1,2,3}` and the grid-side array has at least
+    `ndim` axes.  `gshape` = `input.shape` of interpolate / `shape` of gridding, `cshape` = `coord.shape`. -/
+def domainOk (gshape cshape : List Int) : Bool :=
+  match cshape.getLast? with
+  | none => false
+  | some nd => decide (1 ≤ nd ∧ nd ≤ 3 ∧ nd ≤ (gshape.length : Int))
+
+/-- every `reshape` the wrapper performs is legal (same number of elements) -/
+def reshapesOk (w : Wrapped) : Bool := w.reshapes.all fun r => (pyReshape r.1 r.2).isSome
+
+/-- `interp.interpolate(input, coord, 'spline'-like kernel K, width, param)` on flat row-major data:
+    the generated wrapper `Gen.interpolateW` + application of its update list -/
 def interpolate (K : Rat → Rat → Rat) (ishape cshape : List Int) (coord : List Rat) (width param : Bc)
     (x : Array (Rat × Rat)) : Option (List Int × Array (Rat × Rat)) := do
-  let g ← geom ishape cshape
-  let (E, acc) ← interpEntries K g.ndim g.batch g.grid g.npts (rows g.ndim coord)
-    (width.toList g.ndim) (param.toList g.ndim)
-  let y ← applyC acc [g.batch, g.npts] (g.batch :: g.grid) E x
-  pure (g.batchShape ++ g.ptsShape, y)
+  if !domainOk ishape cshape then none
+  let w ← Gen.interpolateW K ishape cshape coord width param
+  if !reshapesOk w then none
+  let y ← applyC w.acc w.oshape w.ishape w.entries x
+  pure (w.resultShape, y)
 
-/-- `interp.gridding(input, coord, shape, K, width, param)` on flat row-major data -/
+/-- `interp.gridding(input, coord, shape, K, width, param)` on flat row-major data (`input.shape` is only used
+    for the legality of `input.reshape([batch_size, npts])`: the flat length is passed) -/
 def gridding (K : Rat → Rat → Rat) (oshape cshape : List Int) (coord : List Rat) (width param : Bc)
     (x : Array (Rat × Rat)) : Option (List Int × Array (Rat × Rat)) := do
-  let g ← geom oshape cshape
-  let (E, acc) ← gridEntries K g.ndim g.batch g.grid g.npts (rows g.ndim coord)
-    (width.toList g.ndim) (param.toList g.ndim)
-  let y ← applyC acc (g.batch :: g.grid) [g.batch, g.npts] E x
-  pure (oshape, y)
+  if !domainOk oshape cshape then none
+  let w ← Gen.griddingW K [(x.size : Int)] cshape oshape coord width param
+  if !reshapesOk w then none
+  let y ← applyC w.acc w.oshape w.ishape w.entries x
+  pure (w.resultShape, y)
 
 /-- update lists of the flattened problem, for matrix comparison -/
 def entries (isGrid : Bool) (K : Rat → Rat → Rat) (gshape cshape : List Int) (coord : List Rat)
     (width param : Bc) : Option (List (Upd Rat) × Bool) := do
-  let g ← geom gshape cshape
-  (if isGrid then gridEntries else interpEntries) K g.ndim g.batch g.grid g.npts (rows g.ndim coord)
-    (width.toList g.ndim) (param.toList g.ndim)
+  if !domainOk gshape cshape then none
+  let w ← if isGrid then Gen.griddingW K [] cshape gshape coord width param
+          else Gen.interpolateW K gshape cshape coord width param
+  pure (w.entries, w.acc)
 
 /-- kernel arguments per update: for each axis tag `d = 1..ndim` the list of `u_d`, in update order -/
 def entriesTagged (isGrid : Bool) (gshape cshape : List Int) (coord : List Rat) (width : Bc) :
     Option (List (List Int × List Int × List Rat)) := do
-  let g ← geom gshape cshape
-  let runs ← (List.range g.ndim).mapM fun (d : Nat) =>
-    entries isGrid (tagKernel (((d + 1 : Nat) : Int) : Rat)) gshape cshape coord width (.perAxis (tagParam g.ndim))
+  let nd ← cshape.getLast?
+  let ndim := nd.toNat
+  let runs ← (List.range ndim).mapM fun (d : Nat) =>
+    entries isGrid (tagKernel (((d + 1 : Nat) : Int) : Rat)) gshape cshape coord width (.perAxis (tagParam ndim))
   let arrs := runs.map fun (E, _) => E.toArray
   match arrs with
   | [] => none
